@@ -262,6 +262,27 @@ Theorem C06_session_type_code_current :
 Proof. exact session_type_code_current. Qed.
 Print Assumptions C06_session_type_code_current.
 
+(* Copies (round 6): .description of a frame built on a copy.copy / copy.deepcopy / pickle round trip
+   of the schema object answers what the schema itself would answer now, and leaves the schema as it
+   is; replacing a column object by a copy of itself changes nothing; and after a describe through a
+   copy every frame of the session answers the current view. *)
+Theorem C06_session_describe_copy :
+  forall (st : sess) (how : nat),
+  snd (step st (ODescribeCopy how)) = current_view st /\ s_schema (fst (step st (ODescribeCopy how))) = s_schema st.
+Proof. exact step_describe_copy. Qed.
+Print Assumptions C06_session_describe_copy.
+
+Theorem C06_session_copy_column :
+  forall (st : sess) (i how : nat), fst (step st (OCopyColumn i how)) = st.
+Proof. exact step_copy_column. Qed.
+Print Assumptions C06_session_copy_column.
+
+Theorem C06_session_describe_after_copy :
+  forall (st : sess) (how f : nat),
+  snd (step (fst (step st (ODescribeCopy how))) (ODescribe f)) = current_view st.
+Proof. exact describe_after_copy. Qed.
+Print Assumptions C06_session_describe_after_copy.
+
 (* ---------------- the constructor's own keyword arguments (round 4) ---------------- *)
 
 (* Passing None for length / precision / scale / element_type means the same as omitting the
